@@ -13,6 +13,9 @@ spec/redis/ConnTable.tla: backend connection table + shared connect calls + clie
     over a new connection, hold at most one backend connection per node, and none after Stop.
     Mandatory strata (spec/redis/Strata_ConnTable.cfg, every run): a request held by the writer at the hand-over of a
     command / of the ASKING placeholder x the stall ends by connection loss / backend restart / reset-all / normally;
+    and: all clients are reset (OnHostReplace) while the reader of the redirecting backend's client is about to create
+    the client of the node for a redirected request (held at the hook `upstream.createClient`, released when the reset
+    is stopping the old clients) - clientsMu is modelled (`mu`), ResetStopsUnderLock = TRUE must violate NoStuckReset;
  4. spec/redis/Refresh.tla (trigger channel, refresh loop, retry, minimum interval): Converges, BoundedRounds (at most two
     successful rounds after the last layout change), NoLostTrigger, QuitEnds, TriggerKept (a refresh asked for while an
     older CLUSTER NODES reply is in flight survives the installation of that reply; DrainOnSuccess = TRUE must violate it);
@@ -22,6 +25,9 @@ spec/redis/ConnTable.tla: backend connection table + shared connect calls + clie
     flight that has seen the current / an older layout / fails) are replayed with the CLUSTER NODES replies of the seed
     node held back, in two flavours (slot moved: MOVED; master dead, replica promoted: failed connect); when the loop
     has come to rest after the first redirection, a request must be neither redirected nor answered with an error.
+    The layout has a master and a replica component; under the read strategies REPLICA and BOTH a change of the replica
+    assignment alone ("replica moves, master stays") makes the table stale (SkipUnchanged = TRUE - a refresh that leaves
+    slots with an unchanged master alone - must violate BoundedRounds / TriggerKept); mandatory strata under REPLICA and BOTH.
 Owned: spec/redis/ConnTable.tla ConnTableGen.tla Refresh.tla RefreshGen.tla and their cfg files
        (MC_ConnTable_*, Gen_ConnTable, Strata_ConnTable, MC_Refresh*, Gen_Refresh, Strata_Refresh), harness/cases/c07, harness/cmd/c07.
 """
@@ -57,11 +63,15 @@ def pipeline_window(beh):
     return win
 
 
-def stratum_key(beh):
-    """(command / ASKING hand-over, how the request the writer held got its reply) of a Strata_ConnTable path."""
+def stratum_key(rec):
+    """(pipe: command / ASKING hand-over, how the request the writer held got its reply | rdial: reset while the reader of
+    the redirecting client was about to create the client) of a Strata_ConnTable path."""
+    beh = rec["hist"]
     last = beh[-1]
     ask = [e for e in beh if e["a"] == "Issue" and e["r"] == last["r"]][0].get("ask")
     env = [e["a"] for e in beh[:-1] if e["a"] in ("ConnLost", "BackendDown", "ResetAll", "Unstall")]
+    if rec["kind"] == "rdial":
+        return ("redirect-dial", "ResetAll", last["out"])
     return ("ask" if ask else "cmd", env[-1] if env else "?", last["out"])
 
 
@@ -89,6 +99,10 @@ def run(ctx):
             # hand-over of the ASKING placeholder without the quit case: the writer of a lost connection never wakes up,
             # the dead client keeps the address, later requests fail although the backend is reachable
             ("ConnTable", "MC_ConnTable_pinned_ask.cfg", ["ErrorsOnlyWhileDown"]),
+            # resetAllClients keeps clientsMu while it stops the old clients: it waits for a reader that waits for the lock
+            ("ConnTable", "MC_ConnTable_pinned_resetlock.cfg", ["NoStuckReset"]),
+            # a refresh that leaves slots with an unchanged master alone never installs a new replica list
+            ("Refresh", "MC_Refresh_skip.cfg", ["BoundedRounds", "TriggerKept"]),
             # a successful refresh that empties the trigger channel forgets the refresh asked for meanwhile
             ("Refresh", "MC_Refresh_drain.cfg", ["TriggerKept"]),
         ]
@@ -96,18 +110,30 @@ def run(ctx):
             # reachability of the windows (in the quick tier the strata emission below fails if a window is unreachable)
             jobs += [("ConnTable", "MC_ConnTable_win_cmd.cfg", ["NoHandoverCmd"]),
                      ("ConnTable", "MC_ConnTable_win_ask.cfg", ["NoHandoverAsk"]),
-                     ("Refresh", "MC_Refresh_window.cfg", ["NoWindow"])]
-        for (m, c, v) in jobs:
-            ctx.mc("redis", m, c, workers=2, timeout=300, expect_violated=v, count=False)
-        # the stalled connection: in-flight queue full, writer at the hand-over of a command / of the ASKING placeholder;
-        # every action of the module is taken in this configuration
-        rs = ctx.mc("redis", "ConnTable", "MC_ConnTable_stall.cfg" if quick else "MC_ConnTable_stall_thorough.cfg",
-                    workers=4, timeout=1800, coverage=quick)
-        if rs.coverage:
-            ctx.check_vacuity(rs, "ConnTable", ignore=("ResetSnapshot",))
-        # the refresh loop: one-slot trigger channel, retry on failure, minimum interval; convergence within two rounds;
-        # a trigger raised while an older reply is in flight is kept
-        ctx.mc("redis", "Refresh", "MC_Refresh.cfg", workers=2, timeout=300)
+                     ("ConnTable", "MC_ConnTable_win_rdial.cfg", ["NoResetDuringRedirectDial"]),
+                     ("Refresh", "MC_Refresh_window.cfg", ["NoWindow"]),
+                     ("Refresh", "MC_Refresh_window_replica.cfg", ["NoReplicaStale"])]
+        def stalled():
+            # the stalled connection: in-flight queue full, writer at the hand-over of a command / of the ASKING
+            # placeholder; every action of the module is taken in this configuration (ResetDone only in the variant
+            # in which the reset keeps the lock)
+            rs = ctx.mc("redis", "ConnTable", "MC_ConnTable_stall.cfg" if quick else "MC_ConnTable_stall_thorough.cfg",
+                        workers=4, timeout=1800, coverage=quick)
+            if rs.coverage:
+                ctx.check_vacuity(rs, "ConnTable", ignore=("ResetSnapshot", "ResetDone"))
+
+        def refresh_loop():
+            # the refresh loop: one-slot trigger channel, retry on failure, minimum interval; convergence within two
+            # rounds; a trigger raised while an older reply is in flight is kept
+            ctx.mc("redis", "Refresh", "MC_Refresh.cfg", workers=1, timeout=300)
+            # ... and with reads routed by the replica lists (layout changes of the replica assignment alone)
+            ctx.mc("redis", "Refresh", "MC_Refresh_replica.cfg", workers=1, timeout=300)
+
+        with ThreadPoolExecutor(max_workers=3) as ex:
+            futs = [ex.submit(stalled), ex.submit(refresh_loop)]
+            futs += [ex.submit(ctx.mc, "redis", m, c, workers=1, timeout=300, expect_violated=v, count=False) for (m, c, v) in jobs]
+            for f in futs:
+                f.result()
 
     fut_big, fut_small = pool.submit(big), pool.submit(small)
 
@@ -126,21 +152,31 @@ def run(ctx):
     for (tag, p) in st.prints:
         if tag == "STRATUM":
             k = stratum_key(p)
-            if k not in best or len(p) < len(best[k]):
-                best[k] = p
+            if k not in best or len(p["hist"]) < len(best[k]):
+                best[k] = p["hist"]
     st.prints, st.stdout = [], ""
-    need = {(h, e, "err") for h in ("cmd", "ask") for e in ("ConnLost", "BackendDown", "ResetAll")} | {("cmd", "Unstall", "ok"), ("ask", "Unstall", "ok")}
+    need = {(h, e, "err") for h in ("cmd", "ask") for e in ("ConnLost", "BackendDown", "ResetAll")} | {("cmd", "Unstall", "ok"), ("ask", "Unstall", "ok"), ("redirect-dial", "ResetAll", "ok")}
     if need - set(best):
         raise kit.Inconclusive("strata not reachable in ConnTableGen: %s" % sorted(need - set(best)))
     strata = {}
-    for k in sorted(need):
-        strata[len(behs)] = "/".join(k[:2])
+    for k in sorted(need) + [k for k in sorted(best) if k not in need and k[0] == "redirect-dial"]:
+        strata[len(behs)] = "/".join(k[:2]) + ("/backend-down" if k[0] == "redirect-dial" and k[2] == "err" else "")
         behs.append(best[k])
     ctx.cov["conntable_strata"] = sorted(strata.values())
     bfile = os.path.join(ctx.work, "behaviours.ndjson")
     kit.write_ndjson(bfile, behs)
     rfile = os.path.join(ctx.work, "replay.ndjson")
-    ctx.harness(["c07-replay", "-in", bfile, "-out", rfile, "-par", "4"], timeout=3000)
+    # the reset that follows an asking request is forced into the window "reader about to create the client" in the
+    # mandatory strata and in a bounded number of simulated histories (each costs ~15 s when the proxy deadlocks there)
+    gate, budget = [], (30 if ctx.thorough else 3)
+    for idx, beh in enumerate(behs):
+        pat = any(a["a"] == "Issue" and a.get("ask") and b["a"] == "ResetAll" for a, b in zip(beh, beh[1:]))
+        if idx in strata:
+            gate.append(idx + 1)
+        elif pat and budget > 0:
+            gate.append(idx + 1)
+            budget -= 1
+    ctx.harness(["c07-replay", "-in", bfile, "-out", rfile, "-par", "4", "-gate", ",".join(map(str, gate)) or "0"], timeout=3000)
     results = kit.read_ndjson(rfile)
     okc = 0
     missed = []
@@ -153,13 +189,17 @@ def run(ctx):
         okc += 1
         faults = [s["a"] for s in beh if s["a"] in FAULTS]
         win = pipeline_window(beh)
-        ctx.case(key=[(s["a"], s["r"], bool(s.get("ask"))) for s in beh], nontrivial=len(faults) > 0 or bool(win) or idx in strata)
+        ctx.case(key=[(s["a"], s["r"], bool(s.get("ask"))) for s in beh], nontrivial=len(faults) > 0 or bool(win) or idx in strata or bool(res.get("heldAtReset")))
         art = {"behaviour": beh, "result": res}
         if idx in strata:
             art["stratum"] = strata[idx]
             if win and not res.get("heldAtFault"):
                 missed.append("%s: the writer was not seen holding a request when the fault hit" % strata[idx])
+            if strata[idx].startswith("redirect-dial") and not res.get("heldAtReset"):
+                missed.append("%s: no reader was held at the entry of createClient when the clients were reset" % strata[idx])
         fkind = "+".join(sorted(set(faults))) or "no-fault"
+        if res.get("heldAtReset"):
+            win = "reset-during-redirect-dial"
         if win:
             fkind = win + "/" + fkind
         # The replay controls the environment only: whether a request joined the connect attempt of an earlier,
@@ -238,15 +278,27 @@ def run(ctx):
                     rbest[k] = p["hist"]
     st2.prints, st2.stdout = [], ""
     rneed = {"wait", "sleep", "asking-fresh", "asking-stale", "fail", "fail-with-token"}
-    if rneed - set(rbest):
-        raise kit.Inconclusive("strata not reachable in RefreshGen: %s" % sorted(rneed - set(rbest)))
+    # only the replica assignment is stale ("replica moves, master stays"): under the read strategies REPLICA and BOTH
+    rneed_replica = {"replica:wait", "replica:asking-stale"}
+    if (rneed | rneed_replica) - set(rbest):
+        raise kit.Inconclusive("strata not reachable in RefreshGen: %s" % sorted((rneed | rneed_replica) - set(rbest)))
     rbehs = []
     for fl in ("move", "failover"):
         for k in sorted(rneed):
-            rbehs.append({"flavour": fl, "key": k, "steps": rbest[k]})
+            rbehs.append({"flavour": fl, "strategy": "MASTER", "key": k, "steps": rbest[k]})
+    for strat in ("REPLICA", "BOTH"):
+        for k in sorted(rneed_replica if quick else {x for x in rbest if x.startswith("replica:")}):
+            rbehs.append({"flavour": "move", "strategy": strat, "key": k, "steps": rbest[k]})
+    # a master change under REPLICA (reads go to the replicas of the former master)
+    rbehs.append({"flavour": "move", "strategy": "REPLICA", "key": "asking-stale", "steps": rbest["asking-stale"]})
+    nrep = 0
     for i, b in enumerate(rsim):
-        rbehs.append({"flavour": ("move", "failover")[i % 2], "key": "", "steps": b})
-    ctx.cov["refresh_strata"] = sorted(rneed)
+        if any(s["a"] == "Change" and s["phase"] == "replica" for s in b):
+            rbehs.append({"flavour": "move", "strategy": ("REPLICA", "BOTH")[nrep % 2], "key": "", "steps": b})
+            nrep += 1
+        else:
+            rbehs.append({"flavour": ("move", "failover")[i % 2], "strategy": "MASTER", "key": "", "steps": b})
+    ctx.cov["refresh_strata"] = sorted(rneed) + sorted(rneed_replica)
     rbfile = os.path.join(ctx.work, "refresh-behaviours.ndjson")
     kit.write_ndjson(rbfile, rbehs)
     rrfile = os.path.join(ctx.work, "refresh.ndjson")
@@ -262,7 +314,9 @@ def run(ctx):
             continue
         rok += 1
         phases = sorted({s["phase"] for s in b["steps"] if s["a"] == "Notice"})
-        ctx.case(key=["refresh", b["flavour"], [(s["a"], s["phase"]) for s in b["steps"]]], nontrivial=True)
+        ctx.case(key=["refresh", b["flavour"], b["strategy"], [(s["a"], s["phase"]) for s in b["steps"]]], nontrivial=True)
+        only_replica = any(s["a"] == "Notice" and s["table"] == s["layout"] for s in b["steps"])
+        flav = b["flavour"] if b["strategy"] == "MASTER" else "%s/%s" % ("replica-list" if only_replica else "move", b["strategy"])
         art = {"behaviour": b, "result": res}
         # name of the window: the most specific phase in which a request noticed the stale table
         win = "trigger-during-stale-refresh" if "asking-stale" in phases else (
@@ -272,23 +326,23 @@ def run(ctx):
         conf = res.get("confirm")
         if bad and conf and not conf.get("err") and (conf["probeRedirected"] or conf["probeErr"]):
             if not run1["quiet"] and not conf["quiet"]:
-                ctx.violation("no-convergence/refresh-loop-never-rests/%s" % b["flavour"],
+                ctx.violation("no-convergence/refresh-loop-never-rests/%s" % flav,
                               "the refresh loop did not come to rest within 6 s (asked %d, succeeded %d, failed %d)" % (conf["asked"], conf["success"], conf["failure"]), art)
             elif run1["probeErr"] and conf["probeErr"]:
-                ctx.violation("error-while-reachable/after-refresh-rounds/%s/%s" % (win, b["flavour"]),
+                ctx.violation("error-while-reachable/after-refresh-rounds/%s/%s" % (win, flav),
                               "the refresh rounds triggered by the first redirection are over and the owner is reachable, but the request is answered %s (%s)"
                               % (conf["probeReply"], run1.get("diverged") or "all steps followed"), art)
             else:
-                ctx.violation("no-convergence/after-refresh-rounds/%s/%s" % (win, b["flavour"]),
+                ctx.violation("no-convergence/after-refresh-rounds/%s/%s" % (win, flav),
                               "the refresh rounds triggered by the first redirection are over but a request is still redirected (%s)"
                               % (run1.get("diverged") or "all steps followed"), art)
         elif bad:
-            ctx.notes.append("refresh replay %d (%s/%s): stale probe not confirmed by the second run" % (res["id"], win, b["flavour"]))
+            ctx.notes.append("refresh replay %d (%s/%s): stale probe not confirmed by the second run" % (res["id"], win, flav))
         else:
             if run1.get("diverged"):
                 ctx.cov["refresh_diverged"] = ctx.cov.get("refresh_diverged", 0) + 1
                 if b["key"]:
-                    rmissed.append("%s/%s: %s" % (b["key"], b["flavour"], run1["diverged"]))
+                    rmissed.append("%s/%s: %s" % (b["key"], flav, run1["diverged"]))
             else:
                 ctx.cov["traces_validated_against_impl"] += 1
     if rok < len(rbehs) * 0.8:
@@ -317,7 +371,7 @@ def run(ctx):
     if results:
         ctx.sample({"behaviour": [(s["a"], s["r"]) for s in behs[0]], "result": results[0]})
     if rres:
-        ctx.sample({"refresh": [(s["a"], s["phase"]) for s in rbehs[1]["steps"]], "flavour": rbehs[1]["flavour"], "result": rres[1]})
+        ctx.sample({"refresh": [(s["a"], s["phase"]) for s in rbehs[1]["steps"]], "flavour": rbehs[1]["flavour"], "strategy": rbehs[1]["strategy"], "result": rres[1]})
     ctx.cov["rule"] = ("histories = TLC simulation of ConnTableGen / RefreshGen (seeded) + one shortest path per mandatory stratum (exhaustive run); "
                        "distinct by event sequence; non-trivial = contains a fault, a stall or a stale table; "
                        "judged by: error reply only if the request witnessed a fault, healing over a new connection, at most one backend connection; "
